@@ -14,8 +14,33 @@ func init() {
 
 func runC05(c *Ctx) {
 	borrow(c, "O8", "C06", "O10", "cache", "a victim wrongly reported as protected is never displaced")
+	borrow(c, "O11", "C14", "O1", "addTaskIndex <-> deleteTaskIndex", "the victim filters drop a workload whose cached active-allocated count is 0: a count that drifts after an undone simulation hides a legal victim from the later actions of the cycle")
 	borrow(c, "O9", "C01", "O7", "BindPod failure -> unallocate", "resources of a pod whose bind failed stay consumed in the session and a later job that fits is left pending")
 	p, fx := c.P, c.Fx
+	// ---- O10: the pod-slot predicate counts the slots of terminating pods as available (nominations go there)
+	if chk := c.Anchor("O10", "pkg/scheduler/plugins/predicates", "predicatesPlugin", "checkMaxPodsWithGpuGroupReservation"); chk != nil {
+		n := 0
+		seenT := map[string]bool{}
+		for _, rp := range fx.retPaths(chk, 0, WantNil) {
+			for _, f := range rp.Facts.sorted() {
+				if f.T.Op != "bin" || (f.T.Name != "<" && f.T.Name != "<=" && f.T.Name != ">" && f.T.Name != ">=") {
+					continue
+				}
+				for _, a := range f.T.Args {
+					if a.Op == "const" || seenT[a.String()] {
+						continue
+					}
+					seenT[a.String()] = true
+					n++
+					hasIdle := termHas(a, func(x *Term) bool { return x.Op == "field" && x.Name == "Idle" })
+					hasRel := termHas(a, func(x *Term) bool { return x.Op == "field" && x.Name == "Releasing" })
+					c.Check(hasIdle && hasRel, "O10", "RET", funcKey(chk)+": free pod slots = idle + releasing slots of the node", rp.Pos, trunc(a.String(), 160),
+						"the pod-slot predicate does not count the slots of terminating (virtually evicted) pods: on a node whose pod slots are all taken no reclaimer or preemptor can be nominated although its victims free their slots — "+trunc(a.String(), 160))
+				}
+			}
+		}
+		c.Floor("O10", "RET pod-slot comparisons", n, 1)
+	}
 	const pkgCommon = "pkg/scheduler/actions/common"
 	const pkgUtils = "pkg/scheduler/actions/utils"
 	const pkgFw = "pkg/scheduler/framework"
